@@ -99,6 +99,24 @@ class Eq(ast.NodeTransformer):
                 out.append(ast.If(test=s.value.test, body=[ast.Assign(targets=[s.targets[0]], value=s.value.body, lineno=s.lineno)],
                                   orelse=[ast.Assign(targets=[t2], value=s.value.orelse, lineno=s.lineno)]))
                 continue
+            # and-split: if a and b: S  ->  if a: if b: S        (no else)
+            if isinstance(s, ast.If) and not s.orelse and isinstance(s.test, ast.BoolOp) and isinstance(s.test.op, ast.And) and len(s.test.values) == 2 and not getattr(s, "_is_elif", False) and self.hit("and-split"):
+                out.append(ast.If(test=s.test.values[0], body=[ast.If(test=s.test.values[1], body=s.body, orelse=[])], orelse=[]))
+                continue
+            # return-else: if c: ...return X ; rest   ->  if c: ...return X  else: rest      (last statements of a function body)
+            if isinstance(s, ast.If) and not s.orelse and s.body and isinstance(s.body[-1], (ast.Return, ast.Raise)) and idx < len(stmts) - 1 and not in_loop and getattr(self, "_fn_body", None) is stmts \
+                    and not getattr(s, "_is_elif", False) and self.hit("return-else"):
+                rest = []
+                for r in stmts[idx + 1:]:
+                    r = self.visit(r)
+                    rest += r if isinstance(r, list) else [r]
+                s.orelse = rest
+                out.append(s)
+                return out
+            # return-ifexp: return a if c else b  ->  if c: return a  else: return b
+            if isinstance(s, ast.Return) and isinstance(s.value, ast.IfExp) and self.hit("return-ifexp"):
+                out.append(ast.If(test=s.value.test, body=[ast.Return(value=s.value.body)], orelse=[ast.Return(value=s.value.orelse)]))
+                continue
             # guard-invert: `if c: continue` followed by the rest of a loop body
             if in_loop and isinstance(s, ast.If) and not s.orelse and len(s.body) == 1 and isinstance(s.body[0], ast.Continue) and idx < len(stmts) - 1 and self.hit("guard-invert"):
                 rest = []
@@ -136,6 +154,7 @@ class Eq(ast.NodeTransformer):
     def visit_FunctionDef(self, n):
         if n is not self.top:
             return n            # nested functions are edited as functions of their own
+        self._fn_body = n.body
         return self.generic_visit(n)
 
     def visit_Lambda(self, n):
@@ -157,6 +176,10 @@ class Eq(ast.NodeTransformer):
         self.generic_visit(n)
         if len(n.ops) == 1 and type(n.ops[0]) in COMPL and self.hit("not-compl"):
             return ast.UnaryOp(op=ast.Not(), operand=ast.Compare(left=n.left, ops=[COMPL[type(n.ops[0])]()], comparators=n.comparators))
+        SW = {ast.Eq: ast.Eq, ast.NotEq: ast.NotEq, ast.Lt: ast.Gt, ast.Gt: ast.Lt, ast.LtE: ast.GtE, ast.GtE: ast.LtE}
+        pure = lambda e: not any(isinstance(x, (ast.Call, ast.Await, ast.Yield, ast.NamedExpr)) for x in ast.walk(e))
+        if len(n.ops) == 1 and type(n.ops[0]) in SW and pure(n.left) and pure(n.comparators[0]) and not isinstance(n.comparators[0], ast.Constant) and self.hit("cmp-swap"):
+            return ast.Compare(left=n.comparators[0], ops=[SW[type(n.ops[0])]()], comparators=[n.left])
         return n
 
     def visit_UnaryOp(self, n):
@@ -170,6 +193,10 @@ class Eq(ast.NodeTransformer):
         self.generic_visit(n)
         if isinstance(n.func, ast.Name) and n.func.id == "dict" and not n.args and n.keywords and all(k.arg for k in n.keywords) and self.hit("dict-call"):
             return ast.Dict(keys=[ast.Constant(k.arg) for k in n.keywords], values=[k.value for k in n.keywords])
+        if isinstance(n.func, ast.Name) and n.func.id == "dict" and len(n.args) == 1 and not n.keywords and isinstance(n.args[0], ast.Call) and isinstance(n.args[0].func, ast.Name) and n.args[0].func.id == "zip" \
+                and len(n.args[0].args) == 2 and not n.args[0].keywords and self.hit("dict-zip"):
+            return ast.DictComp(key=ast.Name(id="_k", ctx=ast.Load()), value=ast.Name(id="_w", ctx=ast.Load()),
+                                generators=[ast.comprehension(target=ast.Tuple(elts=[ast.Name(id="_k", ctx=ast.Store()), ast.Name(id="_w", ctx=ast.Store())], ctx=ast.Store()), iter=n.args[0], ifs=[], is_async=0)])
         return n
 
 
@@ -286,6 +313,7 @@ def main():
     ap.add_argument("--out", required=True)
     ap.add_argument("--recheck", default=None)
     ap.add_argument("--seed", type=int, default=11)
+    ap.add_argument("--nested-only", action="store_true", help="only functions defined inside other functions (closures, generators)")
     a = ap.parse_args()
     if a.recheck:
         jobs = [tuple(json.loads(l)["job"]) for l in open(a.recheck)]
@@ -302,8 +330,8 @@ def main():
             if fi is None:
                 continue
             node = fi.node
-            if fi.parent is not None:
-                continue          # nested functions: edited through... themselves only when top-level in the segment; skipped here
+            if a.nested_only and fi.parent is None:
+                continue
             rel = os.path.relpath(fi.module.path, "/repo")
             lines = open(fi.module.path).read().splitlines(keepends=True)
             start = node.lineno if not node.decorator_list else node.decorator_list[0].lineno
